@@ -17,6 +17,7 @@ Decides:
  C completion  when completing, "only a positional can stand here" is decided by the item BEFORE the word being completed (a PosWord there),
                never by the spelling or kind of the word itself (shared with C14).
  R restore (b)     fallback / fallback_with put the pre-attempt state back when they absorb a failure (NonStrictPos is raised after the word was taken).
+ K after `--`      no typo suggestion is computed for a PosWord on any route into suggest(); Comp::is_pos excludes flags, arguments and commands.
 Does not decide: which candidates completion offers (C14)."""
 import re
 from core import *
